@@ -20,7 +20,7 @@ def catalogue():
         'pFar': PixCoord(2000.0, 3.0), 'pFarC': PixCoord(2000.005, 3.0), 'pO': PixCoord(0.0, 0.0), 'pOc': PixCoord(4e-6, 0.0), 'parr3': PixCoord([0, 4, 2], [0, 0, 3]),
         'parr4': PixCoord([0.0, 4, 4, 0], [0.0, 0, 3, 3]), 'p2d': PixCoord([[0, 1], [2, 3]], [[0, 1], [2, 3]]),
         'tuple': (1, 2),
-        'sA': sA, 'sB': sB, 'sarr3': SkyCoord([1, 2, 3], [4, 5, 5.5], unit='deg'),
+        'sA': sA, 'sB': sB, 'sAobs': SkyCoord(10.0, 20.0, unit='deg', frame='icrs', obstime='J2010'), 'sarr3': SkyCoord([1, 2, 3], [4, 5, 5.5], unit='deg'),
         'sarr4': SkyCoord([1, 2, 3, 2], [4, 5, 5.5, 6], unit='deg', frame='fk5'),
         's2d': SkyCoord([[1, 2], [3, 4]], [[4, 5], [5, 6]], unit='deg'),
         'a0': 0 * u.deg, 'a30': 30 * u.deg, 'arad': 0.5 * u.rad, 'aAngle': Angle(10, 'deg'), 'aneg': -45 * u.deg,
@@ -108,6 +108,7 @@ class World:
                 return np.shape(v.x) == np.shape(tokval.x) and np.array_equal(v.x, tokval.x) and np.array_equal(v.y, tokval.y)
             if isinstance(v, SkyCoord):
                 return (v.frame.name == tokval.frame.name and v.shape == tokval.shape
+                        and all(str(getattr(v, a_, None)) == str(getattr(tokval, a_, None)) for a_ in ('obstime', 'equinox'))
                         and np.array_equal(v.spherical.lon.deg, tokval.spherical.lon.deg)
                         and np.array_equal(v.spherical.lat.deg, tokval.spherical.lat.deg))
             if isinstance(v, Region):
